@@ -31,10 +31,79 @@ def gen_cases(ctx):
                     "vertdiff": rng.choice([0.0, 0.0, 1e-4, 1e-2, 0.3]), "vadv": rng.random() < 0.5,
                     "D": rng.choice([0.0, 0.0, 100.0]), "n": rng.randint(2, 10), "seed": rng.randrange(10**6),
                     "u": rng.choice([0.0, 1.0, -1.5, 2.5])})
+    for _ in range(12 if ctx.quick else 120):
+        jmax, imax = rng.randint(7, 12), rng.randint(7, 14)
+        out.append({"k": "history", "imax": imax, "jmax": jmax, "hseed": rng.randrange(10**6), "subgrid": ti.random_subgrid(rng, jmax, imax),
+                    "adv": rng.choice(["", "", "EF"]), "vertdiff": rng.choice([0.0, 1e-3]), "vadv": True, "D": 0.0,
+                    "n": rng.randint(3, 8), "seed": rng.randrange(10**6), "steps": rng.randint(3, 7), "u": rng.choice([0.0, 0.0, 1.0])})
     return out
 
 
+def eval_history(desc, ctx):
+    """several steps with deaths, removal of the dead and releases of the same number of new particles in other
+    cells (so that per-particle arrays keep their length while every particle changes slot)"""
+    imax, jmax, sub = desc["imax"], desc["jmax"], desc["subgrid"]
+    i0, i1, j0, j1 = sub if sub else (1, imax - 1, 1, jmax - 1)
+    H = np.round(np.random.default_rng(desc["hseed"]).uniform(5.0, 300.0, size=(jmax, imax)) * 4) / 4
+    d = ctx.subdir("c15")
+    grid = ti.real_grid(d, "g.nc", imax, jmax, np.ones((jmax, imax), dtype=int), h=H, dx=DX, subgrid=tuple(sub) if sub else None)
+    pr = np.random.default_rng(desc["seed"])
+    n = desc["n"]
+
+    def newpos(k):
+        X = np.round(pr.uniform(i0 + 1.0, i1 - 2.0, k) * 64) / 64
+        Y = np.round(pr.uniform(j0 + 1.0, j1 - 2.0, k) * 64) / 64
+        hs = np.array([H[round(float(y)), round(float(x))] for x, y in zip(X, Y)])
+        return X, Y, hs * pr.uniform(0.0, 1.0, k)
+    forcing = ti.StubForcing(U=np.full(n, desc["u"]), V=np.full(n, 0.0), w=np.zeros(n))
+    tr, st, _ = ti.make_tracker(grid, forcing, DT, desc["adv"], diffusion=0.0, vertdiff=desc["vertdiff"], vertical_advection=True)
+    tr.rng = np.random.default_rng(desc["seed"] + 7)
+    shadow = np.random.default_rng(desc["seed"] + 7)
+    X, Y, Z = newpos(n)
+    st.append(X=X, Y=Y, Z=Z)
+    cases, problems, reflected = [], [], False
+    for step in range(desc["steps"]):
+        if step > 0:  # kill k particles, remove them, release k new ones elsewhere: same count, every slot shifts
+            k = int(pr.integers(1, max(2, len(st) // 2 + 1)))
+            al = st.alive.copy(); al[pr.choice(len(st), size=min(k, len(st)), replace=False)] = False
+            st["alive"] = al
+            st.compactify()
+            m = n - len(st)
+            X, Y, Z = newpos(m)
+            st.append(X=X, Y=Y, Z=Z)
+        cnt = len(st)
+        hs = np.array([H[round(float(y)), round(float(x))] for x, y in zip(st.X, st.Y)])
+        w = pr.uniform(-0.45, 0.45, cnt) * hs / DT
+        forcing.variables["w"] = w
+        forcing.U = np.full(cnt, desc["u"]); forcing.V = np.zeros(cnt)
+        X0, Y0, Z0 = st.X.copy(), st.Y.copy(), st.Z.copy()
+        tr.update()
+        oZ = st.Z.copy()
+        Wd = (2 * desc["vertdiff"] / DT) ** 0.5 * shadow.normal(size=cnt) if desc["vertdiff"] > 0 else None
+        ints = [i0, i1, j0, j1] + fl(DT) + [cnt]
+        for v in H[j0:j1, i0:i1].ravel():
+            ints += fl(float(v))
+        for q in range(cnt):
+            disp = (float(Wd[q]) * DT if Wd is not None else 0.0) + float(w[q]) * DT
+            ints += fl(float(X0[q])) + fl(float(Y0[q])) + fl(float(Z0[q]))
+            ints += ([1] + fl(float(Wd[q]))) if Wd is not None else [0, 0, 1]
+            ints += [1] + fl(float(w[q])) + fl(float(oZ[q]))
+            h = float(hs[q])
+            if abs(disp) < h and 0 <= Z0[q] <= h:  # the property's hypothesis: start depth within the start cell's column
+                z1 = Z0[q] + disp
+                reflected |= bool(z1 < 0 or z1 > h)
+                want = -z1 if z1 < 0 else z1
+                want = 2 * h - want if want > h else want
+                if not (-1e-9 <= oZ[q] <= h + 1e-9) or abs(want - oZ[q]) > 1e-9 * (1 + h):
+                    problems.append(f"step {step} particle {q} (pid {int(st.pid[q])}): depth {oZ[q]}, bottom of its start cell {h}, reflecting boundaries give {want}")
+        cases.append(ints)
+    return {"ints": cases, "oracle": "; ".join(problems[:3]) or None, "nontrivial": (desc["seed"], "hist") if reflected else None,
+            "kind": "history-adv" + (desc["adv"] or "off"), "observed": {"steps": desc["steps"]}}
+
+
 def eval_case(desc, ctx):
+    if desc["k"] == "history":
+        return eval_history(desc, ctx)
     imax, jmax, sub = desc["imax"], desc["jmax"], desc["subgrid"]
     i0, i1, j0, j1 = sub if sub else (1, imax - 1, 1, jmax - 1)
     hr = np.random.default_rng(desc["hseed"])
